@@ -133,3 +133,12 @@
                            (cat (sub AU (+ ao (* 32 (- j 1))) 32) 32 (fold hf PS A L idx AU ao (- j 1)) 32)
                            (cat (fold hf PS A L idx AU ao (- j 1)) 32 (sub AU (+ ao (* 32 (- j 1))) 32) 32))))))
      :pattern ((foldTop hf PS A L idx AU ao j)))))
+; xstream(kind, msg, len): the whole output stream of SHAKE-<kind>(msg[0:len]) as an array indexed from 0
+(declare-fun xstream (Int (Array Int Int) Int) (Array Int Int))
+;@ needs xstream
+(assert (forall ((k Int) (A (Array Int Int)) (m Int) (i Int))
+  (! (= (select (xstream k A m) i) (ite (<= 0 i) (shake k A m i) 0)) :pattern ((select (xstream k A m) i)))))
+; le16(v): the two bytes of v mod 2^16, little-endian
+(declare-fun le16 (Int) (Array Int Int))
+;@ needs le16
+(assert (forall ((v Int) (i Int)) (! (= (select (le16 v) i) (ite (= i 0) (mod v 256) (ite (= i 1) (mod (div v 256) 256) 0))) :pattern ((select (le16 v) i)))))
